@@ -136,3 +136,32 @@ Definition py_min {R L} (l:list Z) : ctl R L Z :=
 Fixpoint world_lits_from (i:nat) (w:world) : list form :=
   match w with [] => [] | b::r => (if b then FVar i else FNot (FVar i)) :: world_lits_from (S i) r end.
 Definition world_lits (w:world) : list form := world_lits_from 0 w.
+
+(* ---- sets of conditional objects (the z3 back-ends): lists compared through the conditionals' keys ---- *)
+Definition ckz (c:cond) : Z := Z.of_nat (ckey c).
+Definition cmem (c:cond) (s:list cond) : bool := zmem (ckz c) (map ckz s).
+Definition csubset (a b:list cond) : bool := zsubset (map ckz a) (map ckz b).
+Definition cset_eqb (a b:list cond) : bool := csubset a b && csubset b a.
+Fixpoint cset_of (l:list cond) : list cond :=
+  match l with [] => [] | x::r => let s := cset_of r in if cmem x s then s else x :: s end.
+Definition csetmem (x:list cond) (l:list (list cond)) : bool := existsb (cset_eqb x) l.
+Definition csetset_add (l:list (list cond)) (x:list cond) : list (list cond) := if csetmem x l then l else l ++ [x].
+Definition csetset_inter (a b:list (list cond)) : list (list cond) := filter (fun x => csetmem x b) a.
+
+(* ---- z3.Optimize: a stack of frames of hard and soft assertions; check() decides the hard ones over the world list,
+   model() is SOME model of the hard assertions violating as few soft ones as possible (here: the first such world) ---- *)
+Definition zopt := list (list form * list form).
+Definition zopt_new : zopt := [([], [])].
+Definition o_push (o:zopt) : zopt := ([], []) :: o.
+Definition o_pop (o:zopt) : zopt := tl o.
+Definition o_add (o:zopt) (f:form) : zopt := match o with (h, s)::r => (f::h, s)::r | [] => [([f], [])] end.
+Definition o_add_soft (o:zopt) (f:form) : zopt := match o with (h, s)::r => (h, f::s)::r | [] => [([], [f])] end.
+Definition o_hard (o:zopt) : list form := flat_map fst o.
+Definition o_soft (o:zopt) : list form := flat_map snd o.
+Definition o_holds (o:zopt) (w:world) : bool := forallb (eval w) (o_hard o).
+Definition o_check (n:nat) (o:zopt) : bool := existsb (o_holds o) (worlds n).
+Definition o_cost (o:zopt) (w:world) : nat := length (filter (fun f => negb (eval w f)) (o_soft o)).
+Fixpoint argmin_by {A} (cost:A -> nat) (l:list A) (d:A) : A :=
+  match l with [] => d | x::r => match r with [] => x | _ => let y := argmin_by cost r d in if cost y <? cost x then y else x end end.
+Definition o_model (n:nat) (o:zopt) : world := argmin_by (o_cost o) (filter (o_holds o) (worlds n)) [].
+Definition f_or_list (l:list form) : form := fold_right FOr FBot l.
